@@ -46,6 +46,10 @@ def corpus():
     c['includes'] = [D.include('z/last.h'), D.include('a/first.h'), D.ns('gt', [D.include('m/mid.h'), D.include('gt/b.h'),
                      D.cls('Inc', [D.ctor('Inc')]), D.ns('deep', [D.include('deep/c.h'), D.include('a/again.h')])]),
                      D.include('q/tail.h'), D.func(single(I), 'incf', [])]
+    for tag, mname, rt in (('tdA', 'width', 'int'), ('tdB', 'height', 'double')):
+        c[tag] = [D.ns('gt', [D.cls('Box', [D.ctor('Box', [arg(T('T'), 'v')]), D.method(single(T(rt)), mname, [], 1)], tpl=[D.tparam('T')]),
+                              D.func(single(T('T')), 'unbox', [arg(T('T', 1, '&'), 'b'), arg(T(rt), mname)], tpl=[D.tparam('T')]),
+                              D.typedef(T('gt::Box', t=[I]), 'BoxInt'), D.typedef(T('gt::unbox', t=[T('double')]), 'unboxDouble')])]
     c['docs'] = [D.ns('gt', [D.cls('Foo', [D.method(single(I), 'same', [arg(I, 'v')]), D.method(single(I), 'same', [arg(T('double'), 'v')]),
                                            D.method(single(I), 'plain', [arg(I, 'a')])])])]
     return c
@@ -104,6 +108,15 @@ for n in names:
         res[n + '/matlab'] = h.hexdigest()
     except Exception as e:
         res[n + '/matlab'] = 'EXC %s' % type(e).__name__
+try:
+    out = os.path.join(work, 'out-' + sys.argv[3], 'multi')
+    os.makedirs(out, exist_ok=True)
+    srcs = [os.path.join(work, 'src', n + '.i') for n in names]
+    PybindWrapper(module_name='multi', top_module_namespaces=[''], use_boost_serialization=True, ignore_classes=[''],
+                  module_template=tpl).wrap(srcs, os.path.join(out, 'multi.cpp'))
+    res['multi/pybind'] = hashlib.sha256(open(os.path.join(out, 'multi.cpp'), 'rb').read()).hexdigest()
+except Exception as e:
+    res['multi/pybind'] = 'EXC %s' % type(e).__name__
 print(json.dumps({'digests': res, 'reads': sorted(set(reads)), 'writes': sorted(set(writes))}))
 '''
 
@@ -193,6 +206,45 @@ def run_history(case):
     blob = last[1] if last[0] == 'py' else json.dumps(sorted(last[1].items()))
     state = (tuple(shared._serializing_classes), tuple(sorted(getattr(shared.xml_parser, '_memory', {}).items())))
     return {'viol': [], 'digest': hashlib.sha256(blob.encode()).hexdigest(), 'state': repr(state)}
+
+
+def run_dir_history(case):
+    """Wrap revision A, then revision B (same length, different content) into the SAME output location; the result
+    must equal wrapping B into an empty location."""
+    I = T('int')
+
+    def rev(mname, ename):
+        return D.render([D.ns('gt', [D.cls('Rv', [D.ctor('Rv'), D.method(single(I), mname, [arg(I, 'x')], 1)]),
+                                     D.enum('Ev', [ename, 'Zz']), D.func(single(I), 'fr', [arg(I, mname)])])])
+    a, b = rev('scale', 'Aa'), rev('shift', 'Bb')
+    assert len(a) == len(b)
+    wd = gen.mkdtemp('c14d')
+    viol = []
+    try:
+        from gtwrap.pybind_wrapper import PybindWrapper
+        from gtwrap.matlab_wrapper import MatlabWrapper
+        res = {}
+        for name, first in (('over-older-output', a), ('over-same-output', b), ('empty', None)):
+            d = os.path.join(wd, name)
+            os.makedirs(os.path.join(d, 'src'))
+            os.makedirs(os.path.join(d, 'out'))
+            for text in ([first] if first is not None else []) + [b]:
+                src = os.path.join(d, 'src', 'rv.i')
+                with open(src, 'w') as f:
+                    f.write(text)
+                PybindWrapper(module_name='rv', top_module_namespaces=[''], ignore_classes=[''],
+                              module_template=gen.PY_TEMPLATE).wrap([src], os.path.join(d, 'out', 'rv.cpp'))
+                MatlabWrapper(module_name='rv', ignore_classes=['']).wrap([src], path=os.path.join(d, 'out', 'toolbox'))
+            res[name] = gen.read_tree(os.path.join(d, 'out'))
+        for name in ('over-older-output', 'over-same-output'):
+            if res[name] != res['empty']:
+                diff = [k for k in sorted(set(res[name]) | set(res['empty'])) if res[name].get(k) != res['empty'].get(k)]
+                viol.append({'sig': 'C14|previous-run|%s|%s' % (name, 'matlab' if any('toolbox' in k for k in diff) else 'pybind'),
+                             'msg': 'wrapping into a location that holds the output of an earlier run (%s) gives a different result than '
+                                    'wrapping into an empty one: %s' % (name, diff[:6])})
+    finally:
+        shutil.rmtree(wd, ignore_errors=True)
+    return {'viol': viol}
 
 
 # ------------------------------------------------------------------ (3) schedules
@@ -383,6 +435,7 @@ def explore_schedules(case):
                     raise RuntimeError('jobs are not independent: both write %s' % k)
                 want[k] = v
         nexec = 0
+        sched_states = set()
         outcomes = set()
         maxpoints = 0
         stack = [[]]
@@ -400,6 +453,11 @@ def explore_schedules(case):
             b = run_schedule(jobs, root, prefix)
             nexec += 1
             maxpoints = max(maxpoints, len(b.taken))
+            # scheduler states visited: the vector of per-thread progress after every scheduling point
+            prog = [0] * len(jobs)
+            for who, _ in b.trace:
+                prog[who] += 1
+                sched_states.add(tuple(prog))
             got = gen.read_tree(root)
             outcomes.add(hashlib.sha256(json.dumps(sorted((k, v) for k, v in got.items())).encode()).hexdigest())
             errs = [e for e in b.error if e]
@@ -434,12 +492,15 @@ def explore_schedules(case):
                     continue
                 for alt in range(1, len(en)):
                     stack.append(sched[:i] + [alt])
-        return {'viol': viol, 'executions': nexec, 'outcomes': len(outcomes), 'points': maxpoints, 'capped': capped}
+        return {'viol': viol, 'executions': nexec, 'outcomes': len(outcomes), 'points': maxpoints, 'capped': capped,
+                'sched_states': len(sched_states)}
     finally:
         shutil.rmtree(base, ignore_errors=True)
 
 
 def replay(case):
+    if case.get('mode') == 'dir-history':
+        return run_dir_history(case)['viol']
     if case.get('kind') in ('pybind', 'matlab') and 'bound' in case:
         return explore_schedules(case)['viol']
     return []
@@ -499,7 +560,7 @@ def run(ctx):
         kinds = ('same', 'fresh', 'matlab')
         for L in range(1, depth + 1):
             for ops in itertools.product([(k, n) for k in kinds for n in names], repeat=L):
-                if L == depth and not ctx.thorough and ops[-1][1] not in ('serial', 'docs', 'class', 'templates'):
+                if L == depth and not ctx.thorough and ops[-1][1] not in ('serial', 'docs', 'class', 'templates', 'tdB'):
                     continue
                 hcases.append({'ops': [list(o) for o in ops]})
         fresh = {}
@@ -518,6 +579,9 @@ def run(ctx):
                                   'output of the last call of history %s differs from the output of a fresh wrapper (%s vs %s)'
                                   % (c['ops'], str(r['digest'])[:60], str(fresh.get(refkey))[:16]), c)
         samples.append({'history': hcases[len(hcases) // 2]['ops']})
+        ctx.map(run_dir_history, [{'mode': 'dir-history'}], chunksize=1)
+        transitions += 3
+        traces += 3
         # ---------------- (3) schedules
         scases = [{'kind': 'pybind', 'names': ['class', 'mixed'], 'bound': 2 if not ctx.thorough else 99},
                   {'kind': 'matlab', 'names': ['inherit', 'serial'], 'bound': 1 if not ctx.thorough else 2, 'cap': 1500 if not ctx.thorough else 30000},
@@ -526,12 +590,15 @@ def run(ctx):
             scases.append({'kind': 'matlab', 'names': ['inherit', 'serial', 'docs'], 'bound': 1, 'cap': 30000})
         res = ctx.map(explore_schedules, scases, chunksize=1)
         sched_summary = []
+        nsched_states = 0
         for c, r in res:
             transitions += r.get('executions', 0)
             traces += r.get('executions', 0)
+            nsched_states += r.get('sched_states', 0)
             sched_summary.append({'jobs': '%s x %s' % (c['kind'], c['names']), 'preemption_bound': c['bound'],
                                   'executions': r.get('executions'), 'distinct_outcomes': r.get('outcomes'),
-                                  'scheduling_points': r.get('points'), 'cap_hit': r.get('capped')})
+                                  'scheduling_points': r.get('points'), 'scheduler_states': r.get('sched_states'),
+                                  'cap_hit': r.get('capped')})
         samples.append({'schedules': sched_summary})
     finally:
         shutil.rmtree(wd, ignore_errors=True)
@@ -539,7 +606,7 @@ def run(ctx):
         if d:
             shutil.rmtree(d, ignore_errors=True)
     return {
-        'states': len(states),
+        'states': len(states) + nsched_states,
         'transitions': transitions,
         'traces_validated_against_impl': traces,
         'samples': samples,
